@@ -66,6 +66,7 @@ def pattern? (j : Json) : Option (Option (List (String × MCrit))) :=
 
 def handler? (j : Json) : Option H := do
   let fn ← jNat? (← jField? j "fn")
+  let func ← jNat? (← jField? j "func")
   let id ← jStr? (← jField? j "id")
   let ch ← jBool? (← jField? j "ch")
   let sel ← jOpt? jBool? (← jField? j "sel")
@@ -82,7 +83,7 @@ def handler? (j : Json) : Option H := do
   let r ← jOpt? (fun x => jStr? x >>= reasonOf?) (← jField? j "r")
   let i ← jBool? (← jField? j "i")
   let d ← jBool? (← jField? j "d")
-  some { fn := fn, id := id, changing := ch, selector := sel, subresourceOk := sub, labels := l,
+  some { fn := fn, func := func, id := id, changing := ch, selector := sel, subresourceOk := sub, labels := l,
          annotations := a, «when» := w, field := f, value := v, old := o, new := n,
          fieldNeedsChange := fnc, requiresFinalizer := rf, kind := ⟨r, i, d⟩ }
 
@@ -130,11 +131,13 @@ def effectJson : Effect → Json
   | .addFinalizer => .arr #[.str "fin+"]
   | .removeFinalizer => .arr #[.str "fin-"]
   | .handle ids => .arr #[.str "handle", strs ids]
+  | .touch => .arr #[.str "touch"]
 
 def obj? (j : Json) : Option Obj := do
   some { deletedEvent := ← jBool? (← jField? j "deleted"), ongoing := ← jBool? (← jField? j "ongoing"),
-         blocked := ← jBool? (← jField? j "blocked"), noDelays := ← jBool? (← jField? j "nodelays"),
-         carried := ← jBool? (← jField? j "carried") }
+         blocked := ← jBool? (← jField? j "blocked"), carried := ← jBool? (← jField? j "carried"),
+         lingering := ← jBool? (← jField? j "lingering"), handlerDelays := ← jBool? (← jField? j "hdelays"),
+         resumed := ← jStrList? (← jField? j "resumed") }
 
 def resource? (j : Json) : Option Resource := do
   some { group := ← jStr? (← jField? j "group"), version := ← jStr? (← jField? j "version"),
